@@ -546,3 +546,263 @@ Proof.
     destruct (strip_prefix_has _ _ _ _ _ Hs) as (rest & Hp). destruct He as [He1 He2].
     destruct (Hclean (rooted p')). repeat split; eauto.
 Qed.
+
+(* ===================================================================================== *)
+(* part 6: routing of plain paths                                                         *)
+(* ===================================================================================== *)
+
+Lemma match_path_cons_plain {A} (cs : list (@cand A)) s rest ms : plain_seg s ->
+  match_path cs (s :: rest) ms =
+  match match_path (filter_map (adv_lit s) cs) rest ms with
+  | Some r => Some r
+  | None =>
+    match match_path (filter_map adv_wild cs) rest (ms ++ [s]) with
+    | Some r => Some r
+    | None =>
+      match find_multi cs with
+      | Some (named, pl) => Some (pl, if named then ms ++ [path_unescape (join_with x2f (s :: rest))] else ms)
+      | None => None
+      end
+    end
+  end.
+Proof.
+  intro Hs. cbn [match_path]. destruct (plain_seg_flags s Hs) as (Hn & _). rewrite Hn. cbn [andb].
+  rewrite path_unescape_safe by (apply plain_safe, Hs).
+  assert (E : bytes_eqb s slash = false).
+  { apply bytes_eqb_neq_false. intro X. subst s. destruct Hs as (Hp & _). discriminate Hp. }
+  now rewrite E.
+Qed.
+
+(* candidates whose next segment is a literal other than seg: they do not take part in matching seg *)
+Definition lit_other {A} (seg : bytes) (c : @cand A) : bool :=
+  match fst c with PLit y :: _ => negb (bytes_eqb y seg) | _ => false end.
+
+Lemma lit_other_adv {A} seg (l : list (@cand A)) :
+  Forall (fun c => lit_other seg c = true) l ->
+  filter_map (adv_lit seg) l = [] /\ filter_map adv_wild l = [] /\ find_multi l = None.
+Proof.
+  induction 1 as [|c l Hc Hl (I1 & I2 & I3)]; [auto|].
+  unfold lit_other in Hc. cbn [filter_map find_multi]. unfold adv_lit, adv_wild, multi_of.
+  destruct (fst c) as [|[y| |n] r]; try discriminate.
+  apply negb_true_iff in Hc. rewrite Hc. destruct r; auto.
+Qed.
+
+Lemma find_multi_app {A} (a b : list (@cand A)) :
+  find_multi (a ++ b) = match find_multi a with Some r => Some r | None => find_multi b end.
+Proof. induction a as [|c a IH]; cbn [app find_multi]; [reflexivity|]. destruct (multi_of c); auto. Qed.
+
+(* one multi-wildcard candidate among literals that do not match: the multi takes the rest *)
+Lemma step_multi {A} (l1 l2 : list (@cand A)) n pl seg rest ms :
+  plain_seg seg -> Forall (fun c => lit_other seg c = true) (l1 ++ l2) ->
+  match_path (l1 ++ ([PMulti n], pl) :: l2) (seg :: rest) ms
+  = Some (pl, if n then ms ++ [path_unescape (join_with x2f (seg :: rest))] else ms).
+Proof.
+  intros Hs H. apply Forall_app in H. destruct H as [H1 H2].
+  destruct (lit_other_adv seg l1 H1) as (A1 & A2 & A3). destruct (lit_other_adv seg l2 H2) as (B1 & B2 & B3).
+  rewrite match_path_cons_plain by assumption.
+  rewrite !filter_map_app. cbn [filter_map adv_lit adv_wild fst]. rewrite A1, A2, B1, B2. cbn [app].
+  rewrite !match_path_nil. rewrite find_multi_app, A3. cbn [find_multi multi_of fst snd]. reflexivity.
+Qed.
+
+(* one single-wildcard candidate among literals that do not match *)
+Lemma step_wild {A} (l1 l2 : list (@cand A)) tail pl seg rest ms :
+  plain_seg seg -> Forall (fun c => lit_other seg c = true) (l1 ++ l2) ->
+  match_path (l1 ++ (PWild :: tail, pl) :: l2) (seg :: rest) ms
+  = match_path [(tail, pl)] rest (ms ++ [seg]).
+Proof.
+  intros Hs H. apply Forall_app in H. destruct H as [H1 H2].
+  destruct (lit_other_adv seg l1 H1) as (A1 & A2 & A3). destruct (lit_other_adv seg l2 H2) as (B1 & B2 & B3).
+  rewrite match_path_cons_plain by assumption.
+  rewrite !filter_map_app. cbn [filter_map adv_lit adv_wild fst snd]. rewrite A1, A2, B1, B2. cbn [app].
+  rewrite match_path_nil. rewrite find_multi_app, A3. cbn [find_multi multi_of fst]. rewrite B3.
+  match goal with |- match ?x with Some _ => _ | None => _ end = ?y => change y with x; destruct x; reflexivity end.
+Qed.
+
+Lemma filter_map_In_intro {X Y} (f : X -> option Y) l x y : In x l -> f x = Some y -> In y (filter_map f l).
+Proof.
+  induction l as [|a l IH]; [contradiction|]. intros [->|H] E; cbn [filter_map].
+  - rewrite E. now left.
+  - destruct (f a); [right|]; now apply IH.
+Qed.
+
+Lemma residual_keeps {A} P : forall (cs : list (@cand A)) tail pl,
+  In (lits P ++ tail, pl) cs -> In (tail, pl) (residual cs P).
+Proof.
+  induction P as [|p P IH]; intros cs tail pl H; [exact H|].
+  cbn [residual fold_left]. fold (residual (filter_map (adv_lit p) cs) P). apply IH.
+  eapply filter_map_In_intro; [exact H|]. unfold adv_lit. cbn [lits map app fst snd].
+  now rewrite bytes_eqb_refl.
+Qed.
+
+Lemma filter_nil_Forall {X} (f : X -> bool) l : filter f l = [] -> Forall (fun x => f x = false) l.
+Proof.
+  induction l as [|x l IH]; [constructor|]. cbn [filter]. destruct (f x) eqn:E; [discriminate|].
+  intro H. constructor; auto.
+Qed.
+
+Lemma unique_split {X} (f : X -> bool) l x :
+  In x l -> f x = true -> length (filter f l) = 1%nat ->
+  exists l1 l2, l = l1 ++ x :: l2 /\ Forall (fun y => f y = false) (l1 ++ l2).
+Proof.
+  intros Hin Hf Hl. destruct (in_split _ _ Hin) as (l1 & l2 & ->). exists l1, l2. split; [reflexivity|].
+  rewrite filter_app in Hl. cbn [filter] in Hl. rewrite Hf in Hl. rewrite app_length in Hl. cbn [length] in Hl.
+  apply Forall_app. split; apply filter_nil_Forall.
+  - destruct (filter f l1); [reflexivity|cbn [length] in Hl; lia].
+  - destruct (filter f l2); [reflexivity|cbn [length] in Hl; lia].
+Qed.
+
+Lemma class_of_intro {H} (pats : list (pattern H)) p :
+  In p pats -> In (p_segs p, (p_segs p, p_h p)) (class_of pats (p_host p) (p_get p)).
+Proof.
+  intro Hin. unfold class_of.
+  apply (in_map (fun p => (p_segs p, (p_segs p, p_h p)))). apply filter_In. split; [assumption|].
+  rewrite bytes_eqb_refl. destruct (p_get p); reflexivity.
+Qed.
+
+Lemma tree_match_host {H} (pats : list (pattern H)) host segs r :
+  host <> [] -> match_path (class_of pats host true) segs [] = Some r -> tree_match pats host segs = Some r.
+Proof.
+  intros Hh Hm. unfold tree_match. destruct host; [congruence|]. cbn [is_nil]. now rewrite Hm.
+Qed.
+
+(* ServeMux.findHandler on a clean, plain path: no redirect *)
+Lemma mux_dispatch_plain {H} (pats : list (pattern H)) host segs qs full h ms :
+  segs <> [] -> Forall plain_seg segs ->
+  tree_match pats host segs = Some ((full, h), ms) ->
+  (last_multi full = false \/
+   exists full2 h2 ms2, tree_match pats host (segs ++ [[]]) = Some ((full2, h2), ms2) /\
+                        last_multi full2 = true /\ length full2 <> S (length segs)) ->
+  mux_dispatch pats host (prefix_path segs) [] qs = MFound h ms.
+Proof.
+  intros Hne Hp Hm Hx. unfold mux_dispatch. cbv zeta.
+  assert (Hsafe : safe (prefix_path segs)) by now apply safe_prefix_path.
+  assert (Hstar : prefix_path segs <> [x2a]) by (rewrite prefix_path_join by assumption; discriminate).
+  rewrite escaped_path_safe by assumption. rewrite clean_path_plain by assumption.
+  rewrite segs_of_prefix_path by auto using Forall_plain_noslash.
+  rewrite segs_of_prefix_path_slash by auto using Forall_plain_noslash.
+  rewrite Hm, bytes_eqb_refl. cbn [negb].
+  replace (negb (exact_match (Some (full, h, ms)) (prefix_path segs)) && negb (last_is_slash (prefix_path segs))
+           && exact_match (tree_match pats host (segs ++ [[]])) (prefix_path segs ++ [x2f])) with false; [reflexivity|].
+  symmetry. destruct Hx as [Hx|(full2 & h2 & ms2 & Hm2 & Hl2 & Hlen)].
+  - unfold exact_match at 1. now rewrite Hx.
+  - rewrite Hm2. unfold exact_match at 2. rewrite Hl2. cbn [negb].
+    rewrite last_is_slash_snoc. cbn [negb andb]. rewrite segs_of_prefix_path_slash by auto using Forall_plain_noslash.
+    rewrite app_length. cbn [length]. rewrite andb_false_iff. right.
+    change (Byte.eqb x2f x2f) with true. cbn [negb]. rewrite andb_false_r.
+    apply Nat.eqb_neq. lia.
+Qed.
+
+(* ===================================================================================== *)
+(* part 7: the file server on plain names                                                 *)
+(* ===================================================================================== *)
+
+Lemma noslash_rev s : noslash s -> noslash (rev s).
+Proof.
+  unfold noslash. rewrite !forallb_forall. intros H x Hx. apply H. now apply in_rev.
+Qed.
+
+Lemma cut_prefix_slash_eq A : forall B C, noslash A -> noslash B ->
+  cut_prefix (A ++ [x2f]) (B ++ x2f :: C) <> None -> A = B.
+Proof.
+  induction A as [|a A IH]; intros B C HA HB H.
+  - destruct B as [|b B]; [reflexivity|]. exfalso. apply H. cbn [app cut_prefix].
+    unfold noslash in HB. cbn [forallb] in HB. apply andb_true_iff in HB. destruct HB as [Hb _].
+    unfold nsb in Hb. apply negb_true_iff in Hb.
+    destruct (Byte.eqb x2f b) eqn:E; [|reflexivity]. apply byte_eqb_eq in E. subst b. discriminate Hb.
+  - unfold noslash in HA. cbn [forallb] in HA. apply andb_true_iff in HA. destruct HA as [Ha HA].
+    destruct B as [|b B].
+    + exfalso. apply H. cbn [app cut_prefix]. unfold nsb in Ha. apply negb_true_iff in Ha. now rewrite Ha.
+    + unfold noslash in HB. cbn [forallb] in HB. apply andb_true_iff in HB. destruct HB as [_ HB].
+      cbn [app cut_prefix] in H. destruct (Byte.eqb a b) eqn:E; [|congruence].
+      apply byte_eqb_eq in E. subst b. f_equal. eapply IH; eauto.
+Qed.
+
+Definition index_html : bytes := s2b "index.html".
+
+Lemma no_index_suffix init l : noslash l -> l <> index_html ->
+  has_suffix (s2b "/index.html") (prefix_path (init ++ [l])) = false.
+Proof.
+  intros Hl Hne. unfold has_suffix.
+  destruct (cut_prefix (rev (s2b "/index.html")) (rev (prefix_path (init ++ [l])))) eqn:E; [|reflexivity].
+  exfalso. apply Hne.
+  rewrite prefix_path_app in E. unfold prefix_path at 2 in E. cbn [map concat] in E. rewrite app_nil_r in E.
+  rewrite rev_app_distr in E. change (rev (x2f :: l)) with (rev l ++ [x2f]) in E. rewrite <- app_assoc in E.
+  cbn [app] in E.
+  change (rev (s2b "/index.html")) with (rev index_html ++ [x2f]) in E.
+  assert (X : rev index_html = rev l).
+  { eapply cut_prefix_slash_eq; [reflexivity|now apply noslash_rev|]. rewrite E. discriminate. }
+  rewrite <- (rev_involutive l), <- X. reflexivity.
+Qed.
+
+Lemma file_server_plain root F L hs l init :
+  L <> [] -> Forall plain_seg (F ++ L) -> F ++ L = init ++ [l] -> l <> index_html ->
+  file_server root (prefix_path F ++ prefix_path L) [] hs
+  = File root (prefix_path (F ++ L)) hs (prefix_path (F ++ L)) [].
+Proof.
+  intros HL Hp Hi Hl. unfold file_server. rewrite <- prefix_path_app.
+  assert (Hne : F ++ L <> []) by (destruct F; [assumption|discriminate]).
+  rewrite rooted_prefix_path by assumption.
+  assert (Hnl : noslash l).
+  { rewrite Hi in Hp. apply Forall_app in Hp. destruct Hp as [_ Hp]. inversion Hp; subst. now apply plain_seg_noslash. }
+  rewrite Hi at 1. rewrite no_index_suffix by assumption.
+  now rewrite path_clean_plain.
+Qed.
+
+(* ===================================================================================== *)
+(* part 8: the inner mux                                                                  *)
+(* ===================================================================================== *)
+
+Lemma tree_match_log b host segs :
+  tree_match (log_patterns b) host segs =
+  orelse (match_path (class_of (log_patterns b) [] true) segs [])
+         (match_path (class_of (log_patterns b) [] false) segs []).
+Proof.
+  unfold tree_match. destruct host as [|h0 host]; [reflexivity|]. cbn [is_nil].
+  replace (class_of (log_patterns b) (h0 :: host) true) with (@nil (@cand log_h)) by (destruct b; reflexivity).
+  replace (class_of (log_patterns b) (h0 :: host) false) with (@nil (@cand log_h)) by (destruct b; reflexivity).
+  now rewrite !match_path_nil.
+Qed.
+
+Definition seg_checkpoint := s2b "checkpoint".
+Definition seg_logjson := s2b "log.v3.json".
+Definition seg_issuer := s2b "issuer".
+Definition seg_tile := s2b "tile".
+
+Lemma plain_seg_concrete s :
+  forallb plain_char s = true -> is_nil s = false -> bytes_eqb s dot = false -> bytes_eqb s dotdot = false -> plain_seg s.
+Proof.
+  intros A B C D. repeat split; [exact A| | |]; intro X; subst s; discriminate.
+Qed.
+
+Ltac concrete_plain := apply plain_seg_concrete; vm_compute; reflexivity.
+
+Lemma log_tree_checkpoint b host :
+  tree_match (log_patterns b) host [seg_checkpoint] = Some (([PLit seg_checkpoint], LCheckpoint), []).
+Proof. rewrite tree_match_log. destruct b; vm_compute; reflexivity. Qed.
+
+Lemma log_tree_logjson b host :
+  tree_match (log_patterns b) host [seg_logjson] = Some (([PLit seg_logjson], LLogJSON), []).
+Proof. rewrite tree_match_log. destruct b; vm_compute; reflexivity. Qed.
+
+Lemma log_tree_issuer b host fp : plain_seg fp ->
+  tree_match (log_patterns b) host [seg_issuer; fp] = Some (([PLit seg_issuer; PWild], LIssuer), [fp]).
+Proof.
+  intro Hfp. rewrite tree_match_log. unfold orelse.
+  rewrite match_path_cons_plain by concrete_plain.
+  replace (filter_map (adv_lit seg_issuer) (class_of (log_patterns b) [] true))
+    with [([PWild], ([PLit seg_issuer; PWild], LIssuer))] by (destruct b; vm_compute; reflexivity).
+  rewrite match_path_cons_plain by assumption.
+  cbn [filter_map adv_lit adv_wild fst snd]. rewrite match_path_nil.
+  cbn [match_path find is_leaf is_nil fst snd app]. reflexivity.
+Qed.
+
+Lemma log_tree_tile b host t0 T :
+  tree_match (log_patterns b) host (seg_tile :: t0 :: T)
+  = Some (([PLit seg_tile; PMulti true], LTile), [path_unescape (join_with x2f (t0 :: T))]).
+Proof.
+  rewrite tree_match_log. unfold orelse.
+  rewrite match_path_cons_plain by concrete_plain.
+  replace (filter_map (adv_lit seg_tile) (class_of (log_patterns b) [] true))
+    with [([PMulti true], ([PLit seg_tile; PMulti true], LTile))] by (destruct b; vm_compute; reflexivity).
+  rewrite match_path_multi. reflexivity.
+Qed.
